@@ -17,6 +17,8 @@ From LZ4V Require Import Model.DecStream.
 From LZ4V Require Import Proofs.DecRefineBase Proofs.DecRefineSafe Proofs.DecRefineTop Proofs.DecRefineApi Proofs.DecStreamRefine.
 From LZ4V Require Import Proofs.DecConverse Proofs.DecConverseTop.
 From LZ4V Require Import Proofs.FastCap Proofs.InplaceMargin.
+From LZ4V Require Import Model.DecFast Proofs.DecFastRefine Proofs.DecFastTop.
+From LZ4V Require Import Proofs.DecFootprint.
 Import ListNotations.
 Local Open Scope Z_scope.
 
@@ -145,3 +147,83 @@ Example C05_inplace_tight :
   /\ cursor_gap [q] [] last = 31 /\ wild32_len 16 (16 + 33) - 33 = 31
   /\ Z.of_nat (length (encode_block [q] last)) = enc_len [q] last.
 Proof. split; [constructor|]. vm_compute. repeat split; try reflexivity; discriminate. Qed.
+
+(* The deprecated LZ4_decompress_fast family (Model.DecFast: LZ4_decompress_unsafe_generic,
+   lz4.c:1870-1966, and its three callers).  The C function does not know the input size and has
+   no defence against malformed input, so the statement is for specification-VALID blocks only:
+   given originalSize = |D| the call returns the number of source bytes |B|, produces exactly D,
+   and ([fast_decodes_to] includes the flag) performs no access outside the source [0,srcSize),
+   the destination [0,|D|), the prefix and the dictionary - for no dictionary, a contiguous
+   prefix of any size and an external dictionary of any size. *)
+Theorem C05_fast_valid :
+  forall (B D : list Z) (srcm : mem) (srcSize : Z) (m0 : mem),
+    strict_valid [] B = Some D -> bytes B -> src_at srcm 0 B -> Z.of_nat (length B) <= srcSize ->
+    fast_decodes_to (decompress_fast srcm srcSize (Z.of_nat (length D)) m0) B D.
+Proof. exact fast_valid. Qed.
+Print Assumptions C05_fast_valid.
+
+Theorem C05_fast_usingDict_valid :
+  forall (pl : placement) (B hist D : list Z) (srcm dictm : mem) (srcSize : Z) (m0 : mem),
+    strict_valid (lastn (Z.to_nat 65536) hist) B = Some D -> bytes B -> src_at srcm 0 B ->
+    Z.of_nat (length B) <= srcSize -> hist_placed pl hist dictm m0 ->
+    fast_decodes_to (decompress_fast_usingDict srcm srcSize (Z.of_nat (length D)) pl dictm (Z.of_nat (length hist)) m0) B D.
+Proof. exact fast_usingDict_valid. Qed.
+Print Assumptions C05_fast_usingDict_valid.
+
+(* LZ4_decompress_fast_continue: one call in whichever mode the LZ4_streamDecode_t bookkeeping
+   selects (first call / rolling prefix with the external dictionary still attached / prefix
+   turned into external dictionary); the bookkeeping advances by originalSize. *)
+Theorem C05_fast_continue_step :
+  forall (am : mem) (st : sdstate) (srcm : mem) (srcSize : Z) (B hist D : list Z) (dest : Z),
+    0 <= sd_prefixSize st -> 0 <= sd_extDictSize st ->
+    out_at (stream_view am st dest) 0 (rev hist) -> Z.of_nat (length hist) <= fstream_avail st dest ->
+    strict_valid (lastn (Z.to_nat 65536) hist) B = Some D -> bytes B -> src_at srcm 0 B ->
+    Z.of_nat (length B) <= srcSize ->
+    let '(r, am', st', k) := decompress_fast_continue am st srcm srcSize dest (Z.of_nat (length D)) in
+    r = Z.of_nat (length B) /\ k = true /\ src_at am' dest D /\
+    (0 < Z.of_nat (length B) -> st' = next_state st dest (Z.of_nat (length D))).
+Proof. exact fast_continue_step. Qed.
+Print Assumptions C05_fast_continue_step.
+
+Example C05_fast_nonvacuous :
+  let hist := [120; 121; 122] in
+  let B := [35; 97; 98; 5; 0; 80; 99; 100; 101; 102; 103] in
+  strict_valid hist B = Some [97; 98; 120; 121; 122; 97; 98; 120; 121; 99; 100; 101; 102; 103]
+  /\ (let '(r, m, k) := decompress_fast_usingDict (mem_of_list 0 B) 11 14 PExt (mem_of_list 0 hist) 3
+                          (mem_of_list 0 [7; 7; 7; 7; 7; 7; 7; 7; 7; 7; 7; 7; 7; 7]) in
+      (r, k, load_list m 0 14)) = (11, true, [97; 98; 120; 121; 122; 97; 98; 120; 121; 99; 100; 101; 102; 103])
+  /\ (let '(r, m, k) := decompress_fast_usingDict (mem_of_list 0 B) 11 14 PPrefix empty 3
+                          (store_list (mem_of_list 0 [7; 7; 7; 7; 7; 7; 7; 7; 7; 7; 7; 7; 7; 7]) (-3) hist) in
+      (r, k, load_list m 0 14)) = (11, true, [97; 98; 120; 121; 122; 97; 98; 120; 121; 99; 100; 101; 102; 103]).
+Proof. vm_compute. repeat split; reflexivity. Qed.
+
+(* In-place decoding, aliasing-aware part (PARTIAL result, see the header of Proofs/DecFootprint.v).
+   FULL statement (not proved): with the block of done ++ rest, last at the end of one buffer of
+   d + LZ4_DECOMPRESS_INPLACE_MARGIN(d) bytes and the destination at its start, no store of
+   LZ4_decompress_safe reaches an address at or above the current input cursor before that input
+   byte is consumed, so the aliased run equals the run with separate buffers.
+   Proved: (a) for EVERY input and history placement, one whole iteration of the decoder that
+   continues with output cursor op' stores only below op' + 14 (safe loop) / op' + 31 (fast loop) and
+   advances op by at least 4; the iteration that ends the block stores only below the final op';
+   (b) combined with C05_inplace_margin's cursor_gap (>= 31 at every sequence boundary): nothing at
+   or above the input cursor of the boundary that follows the iteration is modified.
+   Missing: the load/store order inside one iteration (literal over-copy vs the offset and
+   match-length bytes of the same sequence, which are >= 32 bytes ahead), and the restatement of
+   the forward simulation with the two cursors in one address space. *)
+Theorem C05_inplace_step_footprint : step_footprint_stmt false 14 /\ step_footprint_stmt true 31.
+Proof. exact step_footprint. Qed.
+Print Assumptions C05_inplace_step_footprint.
+
+Theorem C05_inplace_footprint_partial :
+  forall (fast : bool) dict srcm iend oend lowPrefix rlow dictm dictSize s
+         (done rest : list seq) (last : list Z),
+    (forall a, 0 <= get srcm a < 256) ->
+    mlens_ok rest -> enc_len (done ++ rest) last <= total_len (done ++ rest) last ->
+    match (if fast then fast_top false dict srcm iend oend lowPrefix rlow dictm dictSize s
+           else safe_top false dict srcm iend oend lowPrefix rlow dictm dictSize s) with
+    | Cont _ s' => forall a, op s' + cursor_gap done rest last <= a -> get (dm s') a = get (dm s) a
+    | Done s' => forall a, op s' <= a -> get (dm s') a = get (dm s) a
+    | Err _ => True
+    end.
+Proof. exact inplace_footprint_partial. Qed.
+Print Assumptions C05_inplace_footprint_partial.
